@@ -853,6 +853,7 @@ struct Exec
 		else if (id == "norm_double") rc = sf_command (t.sf, SFC_SET_NORM_DOUBLE, nullptr, arg ? SF_TRUE : SF_FALSE) ;
 		else if (id == "ieee_replace") rc = sf_command (t.sf, SFC_TEST_IEEE_FLOAT_REPLACE, nullptr, arg ? SF_TRUE : SF_FALSE) ;
 		else if (id == "peak_chunk") rc = sf_command (t.sf, SFC_SET_ADD_PEAK_CHUNK, nullptr, arg ? SF_TRUE : SF_FALSE) ;
+		else if (id == "sync") { sf_write_sync (t.sf) ; rc = 0 ; probe ("write_sync") ; }
 		else if (id == "dither")
 		{	// dither on write: in this library version the dither stage is a plain copy through a staging buffer, so values are unchanged
 			SF_DITHER_INFO di ; memset (&di, 0, sizeof (di)) ; di.type = SFD_WHITE ; di.level = 1.0 ; di.name = "white" ;
